@@ -59,6 +59,8 @@ type World struct {
 	regBases []string
 	pairAddrs []string
 	serial  int
+	seenCS   []exported.ClientState
+	seenCons []exported.ConsensusState
 }
 
 func newWorld() *World {
